@@ -668,6 +668,57 @@ def do_select(acc, name, n, ptk, method, order):
     return '%s: exact' % head
 
 
+# -- arrays returned by f stay f's property ----------------------------------------------------------
+# f returns a read-only array, or (memoised f) the array it stored for that point: the library may read it, not write
+# into it.  Oracle: same result as for a fresh writable array per call, the store unchanged, repeated calls identical.
+
+def work_outputs(chunk):
+    import numdifftools as nd
+    acc = fw.Acc()
+    for cls, method, order in chunk:
+        A = np.array([[1.5, -2.0, 0.5], [0.25, 3.0, -1.0]])
+        b = np.array([0.5, -1.5])
+        if cls == 'Jacobian':
+            def base(x):
+                return np.dot(A, x) + b + 0.1 * x[:2] * x[1:]
+        else:
+            def base(x):
+                return np.array(np.dot(A[0], x) + 0.1 * x[0] * x[2])
+        x = np.array([0.7, -1.3, 2.1])
+        store = {}
+
+        def readonly(t):
+            r = np.array(base(t))
+            r.setflags(write=False)
+            return r
+
+        def memo(t):
+            key = np.asarray(t).tobytes()
+            if key not in store:
+                store[key] = (np.array(t, copy=True), np.array(base(t)))
+            return store[key][1]
+        res = {}
+        for name, g in (('fresh', base), ('readonly', readonly), ('memo', memo), ('memo-again', memo)):
+            fw.fresh_library_state()
+            status, val = call(lambda: getattr(nd, cls)(g, method=method, order=order)(x))
+            res[name] = (status, fw.obs(val) if status == 'ok' else val)
+        damaged = [k for k, (t, r) in store.items() if not np.array_equal(np.asarray(r), np.asarray(base(t)))]
+        for name in ('readonly', 'memo', 'memo-again'):
+            same = res[name] == res['fresh']
+            prob = None
+            if not same:
+                prob = '%s: %s; with a fresh array per call: %s' % (name, str(res[name])[:150], str(res['fresh'])[:150])
+            elif name == 'memo-again' and damaged:
+                prob = '%d of the %d arrays stored by the memoised f were modified by the library' % (len(damaged), len(store))
+            acc.case(('outputs', cls, method, order, name), nontrivial=True, cell='outputs/%s' % name.split('-')[0], outcome=prob is None)
+            if prob:
+                acc.violation('C03:%s:result-array-of-f-%s:%s' % (cls, name.split('-')[0], method),
+                              dict(part='outputs', cls=cls, method=method, order=order),
+                              '%s(f, method=%r, order=%d)(%r), f returning a %s array: %s' % (cls, method, order, x.tolist(), name, prob), 3)
+    fw.fresh_library_state()
+    return acc
+
+
 def work_select(chunk, tier='quick'):
     acc = fw.Acc()
     nmax = 6 if tier == 'quick' else 8
@@ -700,6 +751,7 @@ def required_cells(tier):
     req += ['ridge/g=%s' % g for g in ridge.FUNS] + ['ridge/h=%s' % g for g in ridge.FUNS]
     req += ['grad/form=%s' % f for f in GRAD_FORMS] + ['grad/size1', 'grad/size>1']
     req += ['grad/method=%s/order=%d' % (me, o) for me in METHODS for o in ORDERS]
+    req += ['outputs/readonly', 'outputs/memo']
     req += ['select/map=%s' % mname for mname in SELECT_MAPS] + ['jac/step_ratio=%r' % r for r in RATIOS]
     req += ['dd/v=%s' % v for v in V_KINDS] + ['dd/vform=%s' % f for f in V_FORMS]
     req += ['dd/method=%s/order=%d' % (me, o) for me in METHODS for o in ORDERS]
@@ -712,6 +764,7 @@ def run(ctx):
     items = [(s, p) for s in sp for p in ridge.POINT_KINDS]
     items.sort(key=lambda it: -(it[0][2] * it[0][3] * it[0][4] + (10 * it[0][3] if it[0][1] == 'scalar' else 0)))
     acc = ctx.pmap(work, items, chunk=1, tier=ctx.tier)
+    acc.merge(ctx.pmap(work_outputs, [(c, m, o) for c in ('Jacobian', 'Gradient') for m in METHODS for o in ORDERS], chunk=2))
     acc.merge(ctx.pmap(work_select, [(mname, p) for mname in SELECT_MAPS for p in ridge.POINT_KINDS], chunk=1, tier=ctx.tier))
     b = bounds(ctx.tier)
     for s in [('affine', 'vector', 1, 3, 1, 0), ('ridge', 'vector', 1, 2, 1, ctx.rotate(range(N_VARIANTS), 3)[0]),
@@ -769,6 +822,10 @@ def run(ctx):
 
 
 def replay(case):
+    if case.get('part') == 'outputs':
+        a = work_outputs([(case['cls'], case['method'], int(case['order']))])
+        bad = [r['detail'] for k, (n, recs) in a.viol.items() for r in recs]
+        return not bad, '%r -> %s' % (case, bad or 'identical for every kind of result array')
     if case.get('part') == 'select':
         acc = fw.Acc()
         text = do_select(acc, case['map'], case['n'], case['point'], case['method'], int(case['order']))
